@@ -182,10 +182,18 @@ def feed(cx, data: bytes, cls: str, sample=False):
                 cx.cov["str_calls"] += 2
             except BaseException as e:
                 cx.witness(f"str.header.raises.{type(e).__name__}", {"exc": repr(e)[:200]}, replay)
+            from diameter.message.avp import AvpEncodeError
             try:
                 avps = m.avps
             except cx.allowed:
                 avps = []
+            except AvpEncodeError:
+                # a typed message re-creates its AVP list from the decoded attribute values: that is an encoding step,
+                # and the library's own encode error says a decoded value has no encoding through the typed route
+                # (an E.164 address with a colon in it). Not one of the statement's clauses (decode, value of an AVP,
+                # rendering): counted, not judged; the AVPs the class did not absorb are still walked
+                cx.cov["typed_avps_regeneration_refused"] = cx.cov.get("typed_avps_regeneration_refused", 0) + 1
+                avps = list(getattr(m, "_additional_avps", []) or [])
             except BaseException as e:
                 cx.witness(f"avps.raises.{type(e).__name__}", {"cls": type(m).__name__, "exc": repr(e)[:200]}, replay)
                 avps = []
@@ -335,7 +343,9 @@ def run_typelen(cx, spec, rng):
             for n in range(0, 21):
                 contents = [b"\x00" * n, b"\xff" * n, rng.randbytes(n), bytes([0, 1]) + rng.randbytes(max(n - 2, 0)),
                             bytes([0, 2]) + rng.randbytes(max(n - 2, 0)), bytes([0, 8]) + b"\xc3\x28\xff"[:max(n - 2, 0)],
-                            (b"\xc3\x28" * 11)[:n], (b"\xed\xa0\x80" * 7)[:n]]
+                            (b"\xc3\x28" * 11)[:n], (b"\xed\xa0\x80" * 7)[:n],
+                            # E.164 family with text that looks like an IP address (decodes, has no typed re-encoding)
+                            bytes([0, 8]) + (b"49:1.7" * 4)[:max(n - 2, 0)]]
                 for content in contents:
                     content = content[:n] + b"\x00" * (n - len(content[:n]))
                     avp = R.enc_avp(code, content, vendor, 0x40)
